@@ -28,12 +28,20 @@ type c13Case struct {
 	Procs      int    `json:"procs"`
 	Batch      bool   `json:"batch"`          // a goroutine hands all its messages to one Send call
 	Auth       string `json:"auth,omitempty"` // "" | LOGIN-NOENC | CRAM-MD5 | SCRAM-SHA-256: every connection authenticates against a verifying server
+	// RefuseEvery > 0: every n-th goroutine's messages have recipients the server refuses (550).
+	RefuseEvery int `json:"refuse_every,omitempty"`
+	// RsetDrop: the first RSET that abandons a refused message is answered 421 and the connection dropped.
+	RsetDrop bool `json:"rset_drop,omitempty"`
 }
 
-func c13Msg(token string) *mail.Msg {
+func c13Msg(token string, refused bool) *mail.Msg {
 	m := mail.NewMsg()
 	_ = m.From(token + "@sender.verif.example")
-	_ = m.To(token+"@rcpt.verif.example", token+"b@rcpt.verif.example")
+	if refused {
+		_ = m.To("reject-"+token+"@rcpt.verif.example", "reject-"+token+"b@rcpt.verif.example")
+	} else {
+		_ = m.To(token+"@rcpt.verif.example", token+"b@rcpt.verif.example")
+	}
 	m.Subject("subject " + token)
 	m.SetBodyString(mail.TypeTextPlain, "body of "+token+"\r\n"+strings.Repeat("line of "+token+"\r\n", 20))
 	return m
@@ -43,7 +51,11 @@ func c13Run(c c13Case) []*core.Violation {
 	rec := core.Rec("C13")
 	old := runtime.GOMAXPROCS(c.Procs)
 	defer runtime.GOMAXPROCS(old)
-	srv := refsmtp.NewServer(refsmtp.Script{Caps: []string{"8BITMIME"}, JitterUS: c.JitterUS, NoGreetProbe: true})
+	script := refsmtp.Script{Caps: []string{"8BITMIME"}, JitterUS: c.JitterUS, NoGreetProbe: true, RejectRcptPrefix: "reject-"}
+	if c.RsetDrop {
+		script.Steps = map[string]refsmtp.Outcome{"rsetabandon#1": {Kind: "dropafter", Code: 421, Text: "4.7.0 too many errors"}}
+	}
+	srv := refsmtp.NewServer(script)
 	d := &refsmtp.Dialer{Srv: srv}
 	cfg := smtpCfg{TLS: "none", TimeoutMS: 20000}
 	if c.Auth != "" {
@@ -70,9 +82,10 @@ func c13Run(c c13Case) []*core.Violation {
 		return []*core.Violation{core.V("HARNESS-dial", "%v", err)}
 	}
 	type sent struct {
-		token string
-		msg   *mail.Msg
-		err   error
+		token   string
+		msg     *mail.Msg
+		err     error
+		refused bool
 	}
 	var mu sync.Mutex
 	var all []*sent
@@ -86,7 +99,8 @@ func c13Run(c c13Case) []*core.Violation {
 			var mine []*sent
 			for k := 0; k < c.MsgsPer; k++ {
 				tok := fmt.Sprintf("tokg%dm%dz", g, k)
-				mine = append(mine, &sent{token: tok, msg: c13Msg(tok)})
+				refused := c.RefuseEvery > 0 && g%c.RefuseEvery == 0
+				mine = append(mine, &sent{token: tok, msg: c13Msg(tok, refused), refused: refused})
 			}
 			mu.Lock()
 			all = append(all, mine...)
@@ -119,10 +133,10 @@ func c13Run(c c13Case) []*core.Violation {
 	close(start)
 	select {
 	case <-doneCh:
-	case <-time.After(120 * time.Second):
+	case <-time.After(45 * time.Second):
 		d.Shutdown()
-		rec.AddExtra("inconclusive_watchdog", 1)
-		return nil
+		// three orders of magnitude above the normal run time of a case: some Send call never returned
+		return []*core.Violation{core.V("send-never-returned", "%d goroutines x %d messages: at least one Send/DialAndSend call had not returned after 45 s (refuse_every=%d, rset_drop=%v)", c.Goroutines, c.MsgsPer, c.RefuseEvery, c.RsetDrop)}
 	}
 	_ = cl.Close()
 	d.Shutdown()
@@ -155,15 +169,34 @@ func c13Run(c c13Case) []*core.Violation {
 			}
 		}
 	}
+	faulty := c.RefuseEvery > 0
 	for _, s := range all {
-		if s.err != nil {
-			vs = append(vs, core.V("send-error", "sending %s returned %v", s.token, s.err))
-		}
-		if !s.msg.IsDelivered() {
-			vs = append(vs, core.V("not-delivered", "%s is not marked delivered", s.token))
-		}
-		if commits[s.token] != 1 {
-			vs = append(vs, core.V("commit-count", "%s was committed %d times", s.token, commits[s.token]))
+		delivered := s.msg.IsDelivered()
+		switch {
+		case s.refused:
+			if s.err == nil || delivered || commits[s.token] != 0 {
+				vs = append(vs, core.V("refused-message-state", "%s was refused by the server but: error %v, delivered %v, committed %d times", s.token, s.err, delivered, commits[s.token]))
+			}
+		case !faulty:
+			if s.err != nil {
+				vs = append(vs, core.V("send-error", "sending %s returned %v", s.token, s.err))
+			}
+			if !delivered {
+				vs = append(vs, core.V("not-delivered", "%s is not marked delivered", s.token))
+			}
+			if commits[s.token] != 1 {
+				vs = append(vs, core.V("commit-count", "%s was committed %d times", s.token, commits[s.token]))
+			}
+		default:
+			// with refused messages (and possibly a dropped connection) around, a valid message either
+			// went through completely or failed cleanly; batched calls share one error value
+			if commits[s.token] > 1 || delivered != (commits[s.token] == 1) {
+				vs = append(vs, core.V("commit-count", "%s: delivered=%v but committed %d times (error %v)", s.token, delivered, commits[s.token], s.err))
+			}
+			if !c.RsetDrop && !c.Batch && (s.err != nil || !delivered) {
+				// nothing was done to the connection: a refused message of another goroutine must not hurt this one
+				vs = append(vs, core.V("innocent-message-failed", "%s is a valid message but failed (%v, delivered %v) although only OTHER messages were refused", s.token, s.err, delivered))
+			}
 		}
 	}
 	if len(vs) > 3 {
@@ -171,7 +204,7 @@ func c13Run(c c13Case) []*core.Violation {
 	}
 	jit := len(c.JitterUS) > 0
 	if c.Goroutines >= 4 && jit {
-		rec.NonTrivial(core.Join(c.Goroutines, c.MsgsPer, c.DialEvery, fmt.Sprint(c.JitterUS), c.Procs, c.Batch, c.Auth))
+		rec.NonTrivial(core.Join(c.Goroutines, c.MsgsPer, c.DialEvery, fmt.Sprint(c.JitterUS), c.Procs, c.Batch, c.Auth, c.RefuseEvery, c.RsetDrop))
 		rec.Sample(fmt.Sprintf("%d/%d", c.Goroutines/16, c.DialEvery), map[string]interface{}{"case": c, "connections": len(d.Sessions), "messages": len(all)})
 	}
 	rec.AddExtra("messages_sent", len(all))
@@ -185,6 +218,11 @@ func c13Gen(t *rapid.T) c13Case {
 	c.DialEvery = rapid.SampledFrom([]int{0, 0, 2, 3, 5}).Draw(t, "dialevery")
 	c.Procs = rapid.SampledFrom([]int{2, 4, 16}).Draw(t, "procs")
 	c.Batch = rapid.Bool().Draw(t, "batch")
+	if rapid.IntRange(0, 3).Draw(t, "refuse") == 0 {
+		c.RefuseEvery = rapid.SampledFrom([]int{2, 3, 4}).Draw(t, "refuseevery")
+		c.RsetDrop = rapid.IntRange(0, 2).Draw(t, "rsetdrop") == 0
+		c.DialEvery = 0
+	}
 	c.Auth = rapid.SampledFrom([]string{"", "", "LOGIN-NOENC", "CRAM-MD5", "SCRAM-SHA-256"}).Draw(t, "auth")
 	if c.Auth != "" && c.DialEvery == 0 {
 		c.DialEvery = 2 // authentication only matters for calls that dial
@@ -197,7 +235,7 @@ func c13Gen(t *rapid.T) c13Case {
 
 func TestC13(t *testing.T) {
 	rec := core.Rec("C13")
-	rec.Rule = "rapid draws (goroutines 2..64, 1..4 messages per goroutine, per-call or batched Send on the shared connection, every n-th goroutine using DialAndSend on the same Client, optionally SMTP AUTH (LOGIN, CRAM-MD5 or SCRAM-SHA-256 against a verifying reference server, so that shared authenticator state shows), a per-reply latency jitter plan for the server, GOMAXPROCS in {2, 4, 16}); the binary is built with -race. Every message carries a unique token in its sender, recipients, subject and body. " +
+	rec.Rule = "rapid draws (goroutines 2..64, 1..4 messages per goroutine, per-call or batched Send on the shared connection, every n-th goroutine using DialAndSend on the same Client, optionally SMTP AUTH (LOGIN, CRAM-MD5 or SCRAM-SHA-256 against a verifying reference server, so that shared authenticator state shows), a per-reply latency jitter plan for the server, GOMAXPROCS in {2, 4, 16}); the binary is built with -race. One run in four mixes in messages whose recipients the server refuses (optionally with the abandoning RSET answered 421 + disconnect): the refused ones must fail cleanly, the others must be unaffected (or, after the disconnect, fail cleanly), and no call may hang. Every message carries a unique token in its sender, recipients, subject and body. " +
 		"Oracle: per connection, the reference server's automaton sees no interleaved transaction (nested MAIL etc.); every committed payload carries exactly its own envelope and complete content; every token is committed exactly once; every Send returned nil and every Msg is delivered; any report of the Go race detector is a violation. " +
 		"Non-trivial: >= 4 goroutines with jitter enabled. Distinct by the drawn parameters."
 	rec.Assumptions = []string{"the harness does not own the Go scheduler: schedules are varied through GOMAXPROCS, goroutine counts and server latency only", "the race detector only sees the executions that happen"}
